@@ -276,6 +276,11 @@ def run(index: RepoIndex, rep) -> None:
         rep.check(bij, 'C18.R6', gf, g.grid_rot_name[o], gl, repr(m),
                   f'grid rotation for {o} is not a rearrangement (index map {m})',
                   f'bijection {o}')
+        rep.check(not getattr(m, 'mutates_operand', False), 'C18.R6', gf, g.grid_rot_name[o],
+                  index.func(GRID, g.grid_rot_name[o]).node.lineno, g.grid_rot_name[o],
+                  f'grid rotation for {o} reverses the list or the rows of its operand in '
+                  f'place: the rotated grid is right once, the operand is left rearranged',
+                  f'operand untouched {o}')
         inv = g.grid_rot.get(g.neg.get(o, ''))
         if inv is None:
             continue
